@@ -89,6 +89,16 @@ func C07(c *sim.Ctx) {
 	p := newPair(c, false)
 	defer p.close()
 	t := c.T
+	if st := p.nodes[0].St; st.Pebble && t.Draw("pebble.tinycache", 2) == 1 {
+		// reopen the (still empty) store without a block cache
+		st.TinyCache = true
+		p.nodes[0] = p.nodes[0].Restart(false)
+		c.Probe("pebble_without_block_cache")
+	}
+	hugeAt := -1
+	if t.Draw("huge.class", 12) == 11 {
+		hugeAt = t.Draw("huge.class.block", 4)
+	}
 	p.d.opts.MaxTxs = 2 + t.Draw("max.txs", 7)
 	p.d.opts.MaxEvents = 1 + t.Draw("max.events", 4)
 	maxBlocks := 3 + t.Draw("max.blocks", 8)
@@ -102,7 +112,13 @@ func C07(c *sim.Ctx) {
 			if len(p.m.Chain) >= maxBlocks {
 				continue
 			}
+			if len(p.m.Chain) == hugeAt {
+				// a Sierra class whose program is longer than the CBOR library's default array limit
+				p.d.opts.HugeProgram = []int{131072, 131073, 200000}[t.Draw("huge.class.len", 3)]
+				c.Probe("huge_sierra_program")
+			}
 			b := p.store()
+			p.d.opts.HugeProgram = 0
 			for _, tx := range b.B.Transactions {
 				kinds[fmt.Sprintf("%T/v%s", tx, tx.TxVersion().String())] = true
 			}
